@@ -821,7 +821,17 @@ func opHandlerBind(env *LEnv, args *LVal) *LVal {
 				env.Runtime.PushCondition(val)
 				defer env.Runtime.PopCondition()
 				expr := []*LVal{hval, Quote(Symbol(val.Str))}
-				expr = append(expr, val.Copy().Cells...)
+				for _, c := range val.Copy().Cells {
+					// The data cells are values the error already carries.
+					// They travel to the handler as the arguments of an
+					// evaluated call form, so a cell that is an unquoted
+					// symbol or list (data taken out of a quoted literal,
+					// say) has to be quoted or it would be evaluated as code.
+					if !c.quoted && ((c.Type == LSymbol && !strings.HasPrefix(c.Str, ":")) || (c.Type == LSExpr && len(c.Cells) > 0) || c.Type == LQuote) {
+						c = Quote(c)
+					}
+					expr = append(expr, c)
+				}
 				return env.Eval(SExpr(expr))
 			}
 			return val
